@@ -458,3 +458,39 @@ def agree_bounded(a: Term, b: Term, boxes: Callable[[list[Term]], Iterable[dict]
     if n == 0:
         raise NotEvaluable("empty box")
     return None
+
+
+# ---------------------------------------------------------------------------
+# seqx: integer index sequences written with range / reversed / chain (evaluated by the analyser for small sizes)
+
+
+def eval_seq(t: Term, val: dict) -> list[int]:
+    """Concrete list of integers denoted by `t` under `val`; raises NotEvaluable."""
+    if t[0] == "call":
+        f = t[1]
+        name = f[1] if f[0] == "n" else (f[2] if f[0] == "a" else None)
+        if name == "range":
+            args = [int(evalt(a, val)) for a in t[2]]
+            return list(range(*args))
+        if name == "reversed" and len(t[2]) == 1:
+            return list(reversed(eval_seq(t[2][0], val)))
+        if name == "chain":
+            out: list[int] = []
+            for a in t[2]:
+                out.extend(eval_seq(a, val))
+            return out
+        if name in ("list", "tuple", "sorted") and len(t[2]) == 1:
+            r = eval_seq(t[2][0], val)
+            return sorted(r) if name == "sorted" else r
+    if t[0] in ("list", "tuple"):
+        return [int(evalt(x, val)) for x in t[1:]]
+    if t[0] == "lc" and len(t[3]) == 1:
+        b, it, conds = t[3][0]
+        out = []
+        for k in eval_seq(it, val):
+            v2 = dict(val)
+            v2[b] = k
+            if all(evalt(c, v2) for c in conds):
+                out.append(int(evalt(t[2], v2)))
+        return out
+    raise NotEvaluable("sequence " + tstr(t))
